@@ -560,9 +560,9 @@ theorem filter_map_comm {α β} (f : α → β) (q : α → Bool) (r : β → Bo
     have ha := h a (by simp)
     have ih := filter_map_comm f q r A (fun x hx => h x (List.mem_cons_of_mem _ hx))
     by_cases hq : q a = true
-    · simp [List.filter_cons, hq, ← ha, ih]
+    · simp [hq, ← ha, ih]
     · have hq' : q a = false := by simpa using hq
-      simp [List.filter_cons, hq', ← ha, ih]
+      simp [hq', ← ha, ih]
 
 /-- the arguments flagged positional, by python name, are exactly the positional names in the order given -/
 theorem argList_positional_names {o : TaskOpts} {ps : List Param}
@@ -807,15 +807,15 @@ theorem pushAll_facts : ∀ (sps : List ArgSpec) (c : Ctx),
     · rw [ih.2.2.1, push_flagNames]; simp
     · rw [ih.2.2.2.1, push_inverse]
       by_cases h : sp.hasInverse = true
-      · simp [h, List.filter_cons]
-      · simp [h, List.filter_cons]
+      · simp [h]
+      · simp [h]
     · intro hw
       have := ih.2.2.2.2 (push_WFpos sp hw)
       refine ⟨this.1, ?_⟩
       rw [this.2, push_positionalNames sp hw]
       by_cases h : sp.positional = true
-      · simp [h, List.filter_cons]
-      · simp [h, List.filter_cons]
+      · simp [h]
+      · simp [h]
 
 theorem empty_facts (nm : Option Tok) (al : List Tok) :
     (Ctx.empty nm al).args = [] ∧ (Ctx.empty nm al).taken = [] ∧ (Ctx.empty nm al).flagNames = [] ∧
@@ -1167,5 +1167,128 @@ theorem mkCtx_ok_iff {nm : Tok} {o : TaskOpts} {ps : List Param} {c : Ctx} :
     mkCtx nm o ps = .ok c ↔ helpOK o ps = true ∧ Ctx.ofSpecsChecked (some nm) [] (argList o ps) = .ok c := by
   unfold mkCtx getArguments
   cases h : helpOK o ps <;> simp
+
+/-! ## the flag table maps every flag to the index of its own argument -/
+
+/-- flag table entries of a list of arguments registered from index `i` on -/
+def flagTable : Nat → List ArgSpec → List (Tok × Nat)
+  | _, [] => []
+  | i, sp :: r => sp.names.map (fun n => (toFlag n, i)) ++ flagTable (i + 1) r
+
+theorem pushAll_flags : ∀ (sps : List ArgSpec) (c : Ctx),
+    (c.pushAll sps).flags = c.flags ++ flagTable c.args.length sps
+  | [], c => by simp [Ctx.pushAll, flagTable]
+  | sp :: r, c => by
+    have e : c.pushAll (sp :: r) = (c.push sp).pushAll r := rfl
+    rw [e, pushAll_flags r (c.push sp)]
+    simp [Ctx.push, flagTable, List.append_assoc]
+
+theorem mem_flagTable : ∀ {sps : List ArgSpec} {i j : Nat} {a : ArgSpec} {n : Tok},
+    sps[j]? = some a → n ∈ a.names → (toFlag n, i + j) ∈ flagTable i sps
+  | [], _, _, _, _, h, _ => by simp at h
+  | sp :: r, i, 0, a, n, h, hn => by
+    simp only [List.getElem?_cons_zero, Option.some.injEq] at h
+    subst h
+    simp only [flagTable, Nat.add_zero, List.mem_append]
+    exact Or.inl (List.mem_map.2 ⟨n, hn, rfl⟩)
+  | sp :: r, i, j + 1, a, n, h, hn => by
+    simp only [List.getElem?_cons_succ] at h
+    simp only [flagTable, List.mem_append]
+    right
+    have := mem_flagTable (i := i + 1) h hn
+    rwa [Nat.add_assoc, Nat.add_comm 1 j] at this
+
+theorem assoc_of_mem_nodup {β} : ∀ {l : List (Tok × β)} {k : Tok} {v : β},
+    (k, v) ∈ l → (l.map Prod.fst).Nodup → assoc? k l = some v
+  | [], _, _, h, _ => by cases h
+  | (k', v') :: r, k, v, h, hnd => by
+    simp only [List.map_cons, List.nodup_cons] at hnd
+    unfold assoc?
+    rcases List.mem_cons.1 h with h | h
+    · cases h; simp
+    · have hk : k ≠ k' := by
+        intro e
+        exact hnd.1 (List.mem_map.2 ⟨(k, v), h, e⟩)
+      simp only [hk, if_false]
+      exact assoc_of_mem_nodup h hnd.2
+
+/-- in a successfully built context every name of the `j`-th argument spells a flag that the flag table maps
+    to `j`, and slot `j` of the context holds that argument -/
+theorem ofSpecsChecked_flag_reaches {nm : Option Tok} {al : List Tok} {sps : List ArgSpec} {c : Ctx}
+    (hn : ∀ sp ∈ sps, NormalSpec sp) (h : Ctx.ofSpecsChecked nm al sps = .ok c)
+    {j : Nat} {a : ArgSpec} (hj : sps[j]? = some a) {n : Tok} (hmem : n ∈ a.names) :
+    assoc? (toFlag n) c.flags = some j ∧ c.args[j]? = some (Arg.init a) := by
+  have hnd := ofSpecsChecked_flags_nodup hn h
+  have ht := ofSpecsChecked_tables h
+  unfold Ctx.ofSpecsChecked at h
+  have hc := (foldChecked_ok_iff.1 h).2
+  have hf : c.flags = flagTable 0 sps := by
+    rw [hc, pushAll_flags]; simp [Ctx.empty]
+  refine ⟨assoc_of_mem_nodup ?_ (List.nodup_append.1 hnd).1, ?_⟩
+  · rw [hf]
+    have := mem_flagTable (i := 0) hj hmem
+    simpa using this
+  · rw [ht.1, List.getElem?_map, hj]; rfl
+
+/-! ## the CLI name starts and ends with an alphanumeric character -/
+
+theorem strip_prefix (n : Tok) : stripUnderscores n <+: n.dropWhile (· = '_') := by
+  unfold stripUnderscores
+  have h := List.dropWhile_suffix (l := (n.dropWhile (· = '_')).reverse) (· = '_')
+  have h2 := List.reverse_prefix.2 h
+  rwa [List.reverse_reverse] at h2
+
+theorem strip_head_not_underscore {n : Tok} {c : Char} {r : Tok} (h : stripUnderscores n = c :: r) : c ≠ '_' := by
+  rcases strip_prefix n with ⟨t, ht⟩
+  rw [h] at ht
+  have := dropWhile_head_not (p := (· = '_')) (l := n) (c := c) (r := r ++ t) (by rw [← ht]; rfl)
+  simpa using this
+
+theorem strip_last_not_underscore {n : Tok} {c : Char} (h : (stripUnderscores n).getLast? = some c) : c ≠ '_' := by
+  unfold stripUnderscores at h
+  rw [List.getLast?_reverse] at h
+  cases hd : ((n.dropWhile (· = '_')).reverse.dropWhile (· = '_')) with
+  | nil => rw [hd] at h; simp at h
+  | cons x xs =>
+    rw [hd] at h
+    simp only [List.head?_cons, Option.some.injEq] at h
+    subst h
+    have := dropWhile_head_not hd
+    simpa using this
+
+theorem translate_ends_alnum {n : Tok} (hid : ∀ c ∈ n, isIdentChar c = true) :
+    (∀ c, (translateUnderscores n).head? = some c → c.isAlphanum = true) ∧
+    (∀ c, (translateUnderscores n).getLast? = some c → c.isAlphanum = true) := by
+  rw [translate_eq_map]
+  have key : ∀ d, d ∈ stripUnderscores n → d ≠ '_' → (if d = '_' then '-' else d).isAlphanum = true := by
+    intro d hd hne
+    simp only [hne, if_false]
+    have := hid d (strip_subset n d hd)
+    unfold isIdentChar at this
+    simpa [hne] using this
+  constructor
+  · intro c hc
+    cases hs : stripUnderscores n with
+    | nil => rw [hs] at hc; simp at hc
+    | cons d r =>
+      rw [hs] at hc
+      simp only [List.map_cons, List.head?_cons, Option.some.injEq] at hc
+      subst hc
+      exact key d (by rw [hs]; simp) (strip_head_not_underscore hs)
+  · intro c hc
+    rw [List.getLast?_map] at hc
+    cases hl : (stripUnderscores n).getLast? with
+    | none => rw [hl] at hc; simp at hc
+    | some d =>
+      rw [hl] at hc
+      simp only [Option.map_some, Option.some.injEq] at hc
+      subst hc
+      exact key d (List.mem_of_getLast? hl) (strip_last_not_underscore hl)
+
+theorem dashedName_ends_alnum {n : Tok} (h : pyIdent n = true) :
+    (∀ c, (dashedName n).head? = some c → c.isAlphanum = true) ∧
+    (∀ c, (dashedName n).getLast? = some c → c.isAlphanum = true) := by
+  rw [dashedName_eq_translate]
+  exact translate_ends_alnum (pyIdent_chars h)
 
 end Inv
